@@ -10,12 +10,12 @@ import (
 // Node is the declaration of one URL of a fake site: what it answers and what
 // its (final) body refers to. The reference crawler reads only declarations.
 type Node struct {
-	URL      string   `json:"url"`
-	Kind     string   `json:"kind"` // html | bin | m3u8 | redirect | status | fail5xx | flaky | refuse
-	Refs     []string `json:"refs,omitempty"`
-	Location string   `json:"location,omitempty"`
-	Code     int      `json:"code,omitempty"`
-	FailN    int      `json:"fail_n,omitempty"` // flaky: number of 500 answers before the 200
+	URL      string            `json:"url"`
+	Kind     string            `json:"kind"` // html | bin | m3u8 | redirect | status | fail5xx | flaky | refuse
+	Refs     []string          `json:"refs,omitempty"`
+	Location string            `json:"location,omitempty"`
+	Code     int               `json:"code,omitempty"`
+	FailN    int               `json:"fail_n,omitempty"` // flaky: number of 500 answers before the 200
 	Header   map[string]string `json:"header,omitempty"`
 }
 
